@@ -137,6 +137,7 @@ def r2_stack_effect(ctx):
 
 
 def run(ctx):
+    ctx.guard("C20.K17", "constructor fidelity", lambda: __import__("ctor").check_for(ctx, "C20", 11))
     ctx.guard("C20.R2", "stack effect", lambda: r2_stack_effect(ctx))
     ctx.guard("C20.R1", "updates", lambda: r1_updates(ctx))
     ctx.guard("C20.R4", "guards", lambda: r4_guards(ctx))
@@ -195,3 +196,23 @@ def r4_guards(ctx):
         ctx.violation("C20.R4", fn.key, "%s while %s" % (c[1].split("::")[-1], g[3]), "%s guard on %s is live when %s acquires it %s: %s" % (g[1], g[0], c[1], c[3], c[4]), loc=fn.loc(c[0]))
     if not mine:
         ctx.ok("C20.R4", "cro components", "no-guard-conflict", "")
+
+
+def equal_molecules(ctx, rule):
+    """Two molecules of the container may hold equal individuals (same solution, same objective): selection copies
+    them, so a reaction can draw both.  The two-reactant updates must treat them as the two distinct molecules they are."""
+    F = ctx.facts
+    fields_mol = {f["name"]: f["i"] for f in F.adt(MOL)["variants"][0]["fields"]}
+    for comp, products in (("IntermolecularIneffectiveCollisionUpdate", [indiv("p1", 5.0), indiv("p2", 6.0)]), ("SynthesisUpdate", [indiv("p", 4.0)])):
+        fn = F.method(CRO + comp, "execute", COMP)
+        adt = F.adt(CRO + comp)
+        flds = {f["name"]: f["i"] for f in adt["variants"][0]["fields"]}
+        me = Sym("self", {flds["kinetic_energy_lr"]: 0.2} if "kinetic_energy_lr" in flds else {})
+        pop = [indiv("dup", 5.0), indiv("dup", 5.0), indiv("i2", 6.0)]
+        paths, home_buf, mols = evaluate(F, fn, me, pop, [2.0, 3.0, 1.0], [pop[0], pop[1]], products, 8.0, fields_mol)
+        bad = []
+        for p in paths:
+            if p.end != "return" or not (isinstance(p.ret, Agg) and p.ret.variant == "Ok"):
+                bad.append("%s %s" % (p.end, p.ret if p.end == "return" else ""))
+        ctx.check(not bad, rule, fn.key, "equal-molecules-are-distinct-reactants",
+                  "container [dup, dup, i2] (two molecules holding equal individuals), reactants = molecules 0 and 1: the update ends with %s - it locates reactants by VALUE equality (position(|i| i == &r)), so both resolve to index 0 and a valid run fails" % (bad[0] if bad else ""), loc=fn.loc())
